@@ -243,6 +243,9 @@ type env struct {
 	palF []*int64 // jwt finalizer ttl palette
 	jwtT string   // a JWT signed with env.key, kid "k1"
 	rds  *backend // shared redis backend (miniredis), flushed per case
+	// Cache-Control header the /cc/ endpoint answers with, per path (set by the driver before each request)
+	ccTab sync.Map
+	palH  []int64 // http_cache.default_ttl palette of the ctxhttp prototypes
 }
 
 func newEnv(t *testing.T) *env {
@@ -304,6 +307,15 @@ func newEnv(t *testing.T) *env {
 		fmt.Fprintf(w, `{"allowed":true,"n":%d}`, e.ctr.Add(1))
 	})
 	mux.HandleFunc("/ctx", func(w http.ResponseWriter, _ *http.Request) {
+		w.Header().Set("Content-Type", "application/json")
+		fmt.Fprintf(w, `{"info":"x","n":%d}`, e.ctr.Add(1))
+	})
+	// endpoint behind a mechanism's `http_cache` (real Endpoint.CreateClient wiring): Cache-Control per path
+	mux.HandleFunc("/cc/", func(w http.ResponseWriter, r *http.Request) {
+		if cc, ok := e.ccTab.Load(r.URL.Path); ok && cc.(string) != "" { //nolint:forcetypeassert
+			w.Header().Set("Cache-Control", cc.(string)) //nolint:forcetypeassert
+		}
+
 		w.Header().Set("Content-Type", "application/json")
 		fmt.Fprintf(w, `{"info":"x","n":%d}`, e.ctr.Add(1))
 	})
@@ -388,6 +400,21 @@ func newEnv(t *testing.T) *env {
 				"endpoint": map[string]any{"url": e.srv.URL + "/ctx"},
 				"payload":  "{{ .Subject.ID }}",
 			}, "cache_ttl", v)})
+	}
+
+	// contextualizers whose own cache is off and whose endpoint uses the RFC 7234 http cache
+	e.palH = []int64{0, 5 * sec, -sec}
+	for i, d := range e.palH {
+		hc := map[string]any{"enabled": true}
+		if d != 0 {
+			hc["default_ttl"] = time.Duration(d).String()
+		}
+
+		protos.Contextualizers = append(protos.Contextualizers,
+			config.Mechanism{ID: fmt.Sprintf("ctxhttp_%d", i), Type: "generic", Config: config.MechanismConfig{
+				"endpoint":  map[string]any{"url": e.srv.URL + "/cc/{{ .Subject.ID }}", "method": "GET", "http_cache": hc},
+				"cache_ttl": "0s",
+			}})
 	}
 
 	for i, v := range e.palF {
@@ -1169,6 +1196,9 @@ func (e *env) runHist(c *c10Case) ([]evObs, string, bool) {
 			curStatus int
 		)
 
+		isHTTP := c.Mech == "http" || c.Mech == "ctxhttp"
+		caseID := e.ctr.Add(1)
+
 		if c.Mech == "http" {
 			stub = &stubTransport{make: func(n int64, req *http.Request) *http.Response {
 				return response(req, curStatus, curHdr, fmt.Sprintf("body-%d-%d", n, e.ctr.Add(1)))
@@ -1196,7 +1226,46 @@ func (e *env) runHist(c *c10Case) ([]evObs, string, bool) {
 
 			start := time.Now()
 
-			if c.Mech == "http" {
+			if c.Mech == "ctxhttp" {
+				// the real client wiring: contextualizer -> Endpoint.CreateClient -> httpcache.RoundTripper -> httptest server
+				path := fmt.Sprintf("h%d-%d", caseID, ev.Key)
+				e.ccTab.Store("/cc/"+path, ev.Resp.CC)
+
+				hdr := http.Header{}
+				hdr.Set("Date", start.UTC().Format(http.TimeFormat)) // net/http adds a Date header
+
+				if ev.Resp.CC != "" {
+					hdr.Set("Cache-Control", ev.Resp.CC)
+				}
+
+				_, life := oracle(ev.Resp.request(ctx, ev.Key), http.StatusOK, hdr)
+
+				di := 0
+				for i, d := range e.palH {
+					if d == c.Dflt {
+						di = i
+					}
+				}
+
+				mech, err := e.mf.CreateContextualizer("1alpha4", fmt.Sprintf("ctxhttp_%d", di), nil)
+				if err != nil {
+					panic(err)
+				}
+
+				start = time.Now()
+
+				if be.mr == nil {
+					a = base.UnixNano() + int64(start.Sub(base))
+				}
+
+				if life != nil {
+					rexp = p64(a + *life)
+				}
+
+				if err = mech.Execute(newReq(ctx, nil), &subject.Subject{ID: path, Attributes: map[string]any{}}); err != nil {
+					panic(fmt.Sprintf("ctxhttp %+v: %v", c, err))
+				}
+			} else if c.Mech == "http" {
 				curHdr, curStatus = ev.Resp.header(start), ev.Resp.Status
 				_, life := oracle(ev.Resp.request(ctx, ev.Key), curStatus, curHdr)
 
@@ -1275,7 +1344,7 @@ func (e *env) runHist(c *c10Case) ([]evObs, string, bool) {
 		be.close()
 
 		var hk string
-		if c.Mech == "http" {
+		if isHTTP {
 			hk = vf.CoqApp("HHttp", vf.CoqZ(c.Dflt))
 		} else {
 			hk = vf.CoqApp("HMech", mechCoq[c.Mech], optZ(c.Conf), optZ(c.Rule))
@@ -1499,9 +1568,10 @@ func (e *env) genHist(r *vf.Rand, backend string) c10Case {
 	c := c10Case{Kind: "hist", Backend: backend}
 	n := r.Range(3, 6)
 
-	if r.Chance(35) {
+	if r.Chance(40) {
 		c.Mech = "http"
 		c.Dflt = vf.Pick(r, []int64{0, 0, 5 * sec, -sec})
+		viaMech := r.Chance(40)
 
 		for i := 0; i < n; i++ {
 			ev := c10Ev{Key: r.Range(1, 2), Resp: &c10Resp{Method: "GET", Status: 200}}
@@ -1515,12 +1585,16 @@ func (e *env) genHist(r *vf.Rand, backend string) c10Case {
 				}
 			}
 
-			if ev.Resp.CC == "" && r.Chance(50) {
+			if ev.Resp.CC == "" && r.Chance(50) && !viaMech {
 				ev.Resp.Date = p64(0)
 				ev.Resp.Expires = p64(vf.Pick(r, []int64{-60, 0, 3600}))
 			}
 
 			c.Evs = append(c.Evs, ev)
+		}
+
+		if viaMech {
+			c.Mech = "ctxhttp"
 		}
 
 		return c
@@ -1589,6 +1663,8 @@ func corpus() []c10Case {
 		{Kind: "http", Backend: "redis", Resp: maxAge0},
 		{Kind: "http", Backend: "mem", Resp: &c10Resp{Method: "GET", Status: 200}, Dflt: -sec},
 		{Kind: "hist", Mech: "http", Backend: "mem", Evs: []c10Ev{{Key: 1, Resp: maxAge0}, {Key: 1, Resp: maxAge0, Adv: 30 * msec}, {Key: 1, Resp: maxAge0, Adv: 30 * msec}}},
+		{Kind: "hist", Mech: "ctxhttp", Backend: "mem", Evs: []c10Ev{{Key: 1, Resp: maxAge0}, {Key: 1, Resp: maxAge0, Adv: 30 * msec}, {Key: 2, Resp: maxAge0}}},
+		{Kind: "hist", Mech: "ctxhttp", Backend: "redis", Dflt: 5 * sec, Evs: []c10Ev{{Key: 1, Resp: &c10Resp{Method: "GET", Status: 200, CC: "max-age=1"}}, {Key: 1, Resp: maxAge0, Adv: 450 * msec}, {Key: 1, Resp: &c10Resp{Method: "GET", Status: 200}, Adv: 1450 * msec}, {Key: 1, Resp: maxAge0, Adv: 2450 * msec}, {Key: 1, Resp: maxAge0, Adv: 5450 * msec}}},
 		// C10-F3: remote authorizer, prototype 30 s, rule-level 0 s
 		{Kind: "exec", Mech: "remote", Conf: p64(30 * sec), Rule: p64(0)},
 		{Kind: "hist", Mech: "remote", Backend: "mem", Conf: p64(30 * sec), Rule: p64(0), Evs: []c10Ev{{Key: 1}, {Key: 1}}},
